@@ -30,7 +30,7 @@ Proof.
   set (r := {| r_host := host; r_is_options := false; r_skip_hit := false; r_xhr := x; r_endpoint := EProxy; r_cookie := Sealed s |}).
   assert (Hr: mk_request w host false false x EProxy (CkIssued k) = r).
   { unfold mk_request, cookie_of. rewrite Hn. reflexivity. }
-  unfold c04_step, presented, with_issued, model_obs.
+  unfold c04_step, c04_step_gen, presented, with_issued, model_obs. cbn [orb].
   cbn [o_req o_now o_ans o_served o_cookie o_calls o_issued_at]. rewrite Hr.
   change (handle lower now c u r a) with (proxy_handle lower now c u r a).
   cbn [r_cookie r_host r is_sealed].
